@@ -2,6 +2,7 @@
 #[cfg(kani)]
 pub mod verif_kani {
     use super::*;
+    #[allow(unused_imports)] use crate::key::{PrivateKey, Proof, PublicKey, ReconnectData, Salt, SessionKey, Verifier}; #[allow(unused_imports)] use crate::normalized_string::NormalizedString;
     use core::sync::atomic::{AtomicU8, AtomicUsize, Ordering};
     use crate::normalized_string::verif_kani::verif_make;
 
